@@ -201,7 +201,7 @@ def asserts_eq_const(c):
         if const_int(t[2]) is not None and const_int(t[3]) is None:
             return (t[3], const_int(t[2]))
         return None
-    if isinstance(t, tuple) and t and t[0] in ("havoc", "mutated", "param", "field", "loc") and c.fact[0] == "eq" and isinstance(c.fact[1], int) and not isinstance(c.fact[1], bool):
+    if isinstance(t, tuple) and t and t[0] in ("havoc", "mutated", "param", "field", "loc", "deref", "index") and c.fact[0] == "eq" and isinstance(c.fact[1], int) and not isinstance(c.fact[1], bool):
         return (t, c.fact[1])
     return None
 
